@@ -26,8 +26,16 @@ OPS = [
 
 
 def sh(cmd, cwd=None, timeout=1800, env=None):
-    p = subprocess.run(cmd, shell=True, cwd=cwd, env=env or ENV, stdout=subprocess.PIPE, stderr=subprocess.STDOUT, timeout=timeout)
-    return p.returncode, p.stdout.decode(errors="replace")
+    # own process group, killed as a whole on timeout (a hung test binary would keep the suite's fixed TCP port)
+    import signal
+    p = subprocess.Popen(cmd, shell=True, cwd=cwd, env=env or ENV, stdout=subprocess.PIPE, stderr=subprocess.STDOUT, start_new_session=True)
+    try:
+        out, _ = p.communicate(timeout=timeout)
+    except subprocess.TimeoutExpired:
+        os.killpg(p.pid, signal.SIGKILL)
+        p.communicate()
+        raise
+    return p.returncode, out.decode(errors="replace")
 
 
 def anchors():
@@ -112,8 +120,14 @@ def main():
                     rec["result"] = "does-not-compile"
                 else:
                     rc, out = sh("go test -vet=off -count=1 -timeout 90s . ./pkg/...", cwd=WT, timeout=200)
+                    if rc != 0 and "address already in use" in out:
+                        print("port of the repository suite is taken: aborting", flush=True)
+                        open(p, "w").write(orig)
+                        sys.exit(3)
                     if rc != 0:
                         rec["result"] = "killed-by-repo-suite"
+                        m = re.findall(r"--- FAIL: (\S+)", out)
+                        rec["suite_test"] = m[0] if m else out[-200:]
                     else:
                         rec["result"] = "SURVIVED"
                         rec["ran"] = []
